@@ -1,5 +1,7 @@
 """C12 — degree/size requests resolve to the smallest supported grid not below."""
 import importlib
+import inspect
+import warnings
 
 import numpy as np
 
@@ -11,12 +13,17 @@ LEVEL_TEXT = (
     "not below the request; the resolution rule returns the least supported value >= request with its table partner; "
     "requests above the maximum are rejected; the sequence converter is element-wise. The regenerated tables of all four "
     "methods and the data-directory listing are decided ascending / mutually inverse / file-backed by the kernel "
-    "(decide +kernel). Tie to the code: tables regenerated from the source on every run; the hand model of "
-    "_get_degree_and_size is compared with the implementation on every integer request (exhaustive in the thorough tier)."
+    "(decide +kernel). Tie to the code: tables regenerated from the source on every run; the decision logic itself "
+    "(_get_degree_and_size, convert_angular_sizes_to_degrees, _load_precomputed_angular_grid, selection part of __init__) is "
+    "translated from the AST on every run (Gen/AngularLogic.lean) and every property theorem is restated and proved for the "
+    "generated definitions (equal to the hand model on all well-formed inputs; guards reject everything else; the file name "
+    "built for a resolved pair is in the regenerated directory listing and no loader guard fires; the cache key is sound). "
+    "The generated functions are the executable model compared with the implementation on every integer request "
+    "(exhaustive in the thorough tier)."
 )
-TECHNIQUE = "Lean 4 proof (generic bisect/resolution theorems + kernel-decided regenerated tables) + exhaustive correspondence"
-GEN = ["angular_tables"]
-LEAN_MODULES = ["GridVerif.Props.C12"]
+TECHNIQUE = "Lean 4 proof (generic bisect/resolution theorems, AST-translated decision logic, kernel-decided regenerated tables and directory listing) + exhaustive correspondence"
+GEN = ["angular_tables", "angular_logic"]
+LEAN_MODULES = ["GridVerif.Props.C12", "GridVerif.Props.C12.Listing", "GridVerif.Props.C12.Logic"]
 THEOREMS = [
     "GridVerif.C12.bisect_left_least_index",
     "GridVerif.C12.resolve_spec",
@@ -26,23 +33,53 @@ THEOREMS = [
     "GridVerif.C12.size_request",
     "GridVerif.C12.request_above_max_rejected",
     "GridVerif.C12.convert_is_map",
+    # over the generated decision logic (Gen/AngularLogic.lean)
+    "GridVerif.C12.gen_body_eq_model",
+    "GridVerif.C12.gen_eq_model",
+    "GridVerif.C12.gen_malformed_rejected",
+    "GridVerif.C12.gen_never_unmodelled",
+    "GridVerif.C12.gen_dispatch_iff",
+    "GridVerif.C12.gen_dispatch_unknown",
+    "GridVerif.C12.listing_names",
+    "GridVerif.C12.loader_ok",
+    "GridVerif.C12.gen_loader_resolved",
+    "GridVerif.C12.gen_degree_request",
+    "GridVerif.C12.gen_size_request",
+    "GridVerif.C12.gen_request_above_max_rejected",
+    "GridVerif.C12.gen_convert_is_map",
+    "GridVerif.C12.gen_convert_elementwise",
+    "GridVerif.C12.gen_ok_in_table",
+    "GridVerif.C12.gen_init_size_overrides_degree",
+    "GridVerif.C12.gen_init_resolved",
+    "GridVerif.C12.gen_init_degree_request",
+    "GridVerif.C12.gen_init_size_request",
+    "GridVerif.C12.gen_cache_key_sound",
 ]
 RULE = (
     "correspondence: every integer degree 0..max+2 of each of the 4 methods (always) and every size "
     "0..max+2 (thorough: all; quick: every table key k and k-1,k+1 plus a VERIF_SEED stride) sent to "
     "AngularGrid._get_degree_and_size and to the Lean model; random size sequences to "
     "convert_angular_sizes_to_degrees as one history of calls sharing a pool of sizes across methods; non-trivial = request is not itself a table key (bisect path) "
-    "or is above the maximum (rejection path) or a sequence with >=2 distinct sizes"
+    "or is above the maximum (rejection path) or a sequence with >=2 distinct sizes. Argument classes: degree/size as "
+    "int, bool, np.int8..uint64, np.bool_, float, np.float64, 0-d/1-element array, str, None, negative, both given, positional "
+    "and keyword, unknown / differently spelled method; converter input as list, tuple, int64/int32/uint16/object array, "
+    "read-only, non-contiguous, float64 and bool arrays, the same array object reused across methods (input must stay "
+    "unchanged, output must be a fresh integer array); AngularGrid constructions as one history (cache on/off, "
+    "degree/size/both, any spelling of the method, largest degree and size of every method, repeated and interleaved), "
+    "each compared with the generated __init__ selection: degree, size, cache entry, and the points of the very file "
+    "the model names; AtomGrid(...).degrees for degrees= and sizes="
 )
 TRUSTED_BASE = [
     "Lean 4.33 kernel; axioms propext, Classical.choice, Quot.sound only (audited per theorem)",
     "translator harness/translate/angular_tables.py (dumps dicts in insertion order, reads npz headers)",
-    "hand model Model/Bisect.lean of _get_degree_and_size, tied by exhaustive correspondence",
-    "Python bisect_left / dict semantics as modelled",
+    "translator harness/translate/angular_logic.py (AST -> Gen/AngularLogic.lean; raises on syntax it cannot carry; also lists the data packages named by the loader)",
+    "Model/AngularPy.lean: meaning of bisect_left, dict lookup / in, max, list[i], np.unique, np.zeros, a[np.where(m)] = v, isinstance(x, int | np.integer), comparisons, f-string fields (hand-written primitives; the bisect loop / dict / max are those of Model/Bisect.lean)",
+    "harness classification of a Python argument as none / integer (int, bool, np.integer) / other, mirroring isinstance(x, int | np.integer)",
 ]
 ASSUMPTIONS = [
     "np.load returns the arrays stored in the file; file naming method_degree_size.npz",
-    "negative / non-integer requests are rejected before the modelled part (checked on a malformed stream)",
+    "converter input is a one-dimensional sequence (a scalar or 2-D array raises TypeError / IndexError inside numpy, outside the model)",
+    "warnings.warn calls have no effect on the result",
 ]
 
 METHODS = ["lebedev", "spherical", "maxdet", "ahrens_beylkin"]
@@ -59,6 +96,291 @@ def _impl(ang, method, degree=None, size=None):
         return "value-error"
     except IndexError:
         return "index-error"
+    except TypeError:
+        return "type-error"
+    except KeyError:
+        return "key-error"
+
+
+def _tok(v):
+    """A Python argument as the model sees it: none / an instance of int | np.integer / other."""
+    if v is None:
+        return "none"
+    if isinstance(v, (int, np.integer)):   # bool is an int; np.bool_ is not an np.integer
+        return str(int(v))
+    return "other"
+
+
+def _tag(e):
+    return {ValueError: "value-error", IndexError: "index-error", TypeError: "type-error", KeyError: "key-error"}.get(type(e), type(e).__name__)
+
+
+def _npint(ctx, i):
+    """`i` as a randomly chosen NumPy integer type that can hold it."""
+    ts = [t for t in (np.int8, np.int16, np.int32, np.int64, np.uint8, np.uint16, np.uint32, np.uint64)
+          if np.iinfo(t).min <= i <= np.iinfo(t).max]
+    return ctx.rng.choice(ts)(i) if ts else i
+
+
+def _npint_list(ctx, seq):
+    """The sequence as a list of NumPy integer scalars of one common type (a list mixing uint64
+    with signed types is promoted to float64 by np.unique — NumPy's rule, not a list of integers
+    any more — and is left out)."""
+    ts = [t for t in (np.int8, np.int16, np.int32, np.int64, np.uint8, np.uint16, np.uint32, np.uint64)
+          if all(np.iinfo(t).min <= x <= np.iinfo(t).max for x in seq)]
+    t = ctx.rng.choice(ts)
+    return [t(x) for x in seq]
+
+
+def _values(ctx, ang, m):
+    """Objects of every argument class for `degree=` / `size=`."""
+    npts = getattr(ang, PREFIX[m] + "_NPOINTS")
+    ks, ds = sorted(npts), sorted(npts.values())
+    ints = [0, 1, ctx.rng.choice(ds), ctx.rng.choice(ds) + 1, ds[-1], ds[-1] + 1, ctx.rng.choice(ks), ctx.rng.choice(ks) - 1,
+            ks[-1], ks[-1] + 1, ctx.rng.randrange(0, ks[-1])]
+    vals = [None, True, False, np.True_, np.bool_(False), -1, -ctx.rng.randrange(1, 50), np.int64(-3), np.int8(-1), 2 ** 70,
+            2.5, 5.0, float(ctx.rng.choice(ds)), np.float64(7.0), np.float32(3.0), "7", b"7", np.array(5), np.array([5]),
+            [5], (5,), 5 + 0j, float("nan"), float("inf")]
+    for i in ints:
+        vals += [i, _npint(ctx, i)]
+    return vals
+
+
+def _corr_classes(ctx: Ctx, ang):
+    """Class 2/4/6: every kind of scalar argument, both arguments given, positional and keyword,
+    unknown and differently spelled methods — against the generated _get_degree_and_size."""
+    f = ang.AngularGrid._get_degree_and_size
+    cases = []
+    for m in METHODS + ["Lebedev", "SPHERICAL", "maxdet_", "gauss"]:
+        vals = _values(ctx, ang, m if m in METHODS else "lebedev")
+        pairs = [(v, None) for v in vals] + [(None, v) for v in vals]
+        pairs += [(ctx.rng.choice(vals), ctx.rng.choice(vals)) for _ in range(ctx.n(40, 400))]
+        if m not in METHODS:
+            pairs = ctx.rng.sample(pairs, 12)
+        cases += [(m, d, sz) for d, sz in pairs]
+    model = driver_batch([f"C12.gds {m} {_tok(d)} {_tok(sz)}" for m, d, sz in cases])
+    for i, ((m, d, sz), ans) in enumerate(zip(cases, model)):
+        with warnings.catch_warnings():
+            warnings.simplefilter("ignore")
+            try:
+                r = f(d, sz, m) if i % 2 else f(degree=d, size=sz, method=m)
+                impl = f"ok {int(r[0])} {int(r[1])}"
+            except Exception as e:  # noqa: BLE001
+                impl = _tag(e)
+        cls = f"{type(d).__name__}/{type(sz).__name__}"
+        ctx.count(["gds", m, repr(d), repr(sz)], nontrivial=(d is not None and sz is not None) or _tok(d) == "other" or _tok(sz) == "other",
+                  tag="class:" + ("both" if d is not None and sz is not None else "other" if "other" in (_tok(d), _tok(sz)) else "npint" if isinstance(d, np.integer) or isinstance(sz, np.integer) else "int"))
+        if impl != ans:
+            ctx.fail("corr", f"gds:{m}:{cls}", f"_get_degree_and_size(degree={d!r}, size={sz!r}, method={m!r}): implementation {impl}, generated model {ans}",
+                     witness={"method": m, "degree": repr(d), "size": repr(sz), "degree_token": _tok(d), "size_token": _tok(sz), "impl": impl, "model": ans})
+
+
+def _containers(ctx, seq):
+    """The same sequence of sizes in every container / dtype the converter may be handed:
+    -> (label, object, class of its elements)."""
+    a = np.array(seq, dtype=np.int64)
+    out = [("list", list(seq), "int"), ("tuple", tuple(seq), "int"), ("int64", a.copy(), "int"),
+           ("int32", a.astype(np.int32), "int"), ("object", np.array(list(seq), dtype=object), "int"),
+           ("list-npint", _npint_list(ctx, seq), "int")]
+    if all(0 <= x < 65536 for x in seq):
+        out.append(("uint16", a.astype(np.uint16), "int"))
+    ro = a.copy()
+    ro.setflags(write=False)
+    out.append(("read-only", ro, "int"))
+    out.append(("non-contiguous", np.repeat(a, 2)[::2], "int"))
+    out.append(("float64", a.astype(float), "other"))
+    out.append(("float-list", [float(x) for x in seq], "other"))
+    out.append(("bool", a % 2 == 0, "other"))
+    return out
+
+
+def _corr_containers(ctx: Ctx, ang, pool):
+    """Class 2/3/5/6: container kind and dtype of `sizes`, the same array object reused under
+    every method, keyword vs positional `method`, input left unchanged, output a fresh int array."""
+    conv = ang.AngularGrid.convert_angular_sizes_to_degrees
+    other = dict(zip(METHODS, driver_batch([f"C12.gds {m} none other" for m in METHODS])))
+    jobs = []
+    for _ in range(ctx.n(14, 200)):
+        L = ctx.rng.randrange(0, 7)
+        seq = [ctx.rng.choice(pool) for _ in range(L)]
+        if ctx.rng.random() < 0.15 and seq:
+            seq[ctx.rng.randrange(L)] = -ctx.rng.randrange(1, 9)
+        variants = [seq, sorted(seq), sorted(seq, reverse=True), seq + seq[::-1]]
+        seq = ctx.rng.choice(variants)
+        for label, obj, cls in _containers(ctx, seq):
+            jobs.append((seq, label, obj, cls))
+    model = {}
+    keys = sorted({(m, tuple(seq)) for seq, *_ in jobs for m in METHODS})
+    for k, ans in zip(keys, driver_batch([f"C12.convert {m} {len(q)} " + " ".join(map(str, q)) for m, q in keys])):
+        model[k] = ans
+    for seq, label, obj, cls in jobs:
+        before = obj.copy() if isinstance(obj, np.ndarray) else type(obj)(obj)
+        for j, m in enumerate(ctx.rng.sample(METHODS, len(METHODS))):     # the same object under every method
+            want = model[(m, tuple(seq))] if cls == "int" else ("ok 0" if not seq else other[m])
+            with warnings.catch_warnings():
+                warnings.simplefilter("ignore")
+                try:
+                    d = conv(obj, m) if j % 2 else conv(obj, method=m)
+                    impl = "ok " + " ".join([str(len(d))] + [str(int(x)) for x in d])
+                except Exception as e:  # noqa: BLE001
+                    d, impl = None, _tag(e)
+            _HISTORY.append([m, list(seq)])
+            ctx.count(["convert-container", label, m, seq], nontrivial=len(set(seq)) >= 2, tag="container:" + label)
+            if impl != want:
+                ctx.fail("corr", f"convert:{m}:{label}", f"convert_angular_sizes_to_degrees({label} {seq}, {m}): implementation {impl}, generated model {want}",
+                         witness={"method": m, "sizes": seq, "container": label, "impl": impl, "model": want})
+            same = np.array_equal(obj, before) if isinstance(obj, np.ndarray) else obj == before
+            if not same:
+                ctx.fail("corr", f"convert:{m}:{label}:input-changed", f"convert_angular_sizes_to_degrees changed its input {label} {seq} -> {list(obj)}",
+                         witness={"method": m, "sizes": seq, "container": label})
+                break
+            if d is not None and not (isinstance(d, np.ndarray) and d.dtype.kind in "iu" and d.shape == (len(seq),)
+                                      and not (isinstance(obj, np.ndarray) and np.shares_memory(d, obj))):
+                ctx.fail("corr", f"convert:{m}:{label}:result-kind", f"convert_angular_sizes_to_degrees({label} {seq}, {m}) returned {type(d).__name__} "
+                         f"dtype={getattr(d, 'dtype', None)} shape={getattr(d, 'shape', None)} (expected a fresh integer array of that length)",
+                         witness={"method": m, "sizes": seq, "container": label})
+
+
+_FILES = {}
+
+
+def _file_points(pkg, name):
+    """points array of the data file the model names (package `grid.x.y` -> <src>/x/y)."""
+    if (pkg, name) not in _FILES:
+        f = SRC.joinpath(*pkg.split(".")[1:]) / name
+        if not f.exists():
+            _FILES[(pkg, name)] = None
+        else:
+            with np.load(f) as z:
+                _FILES[(pkg, name)] = np.array(z["points"])
+    return _FILES[(pkg, name)]
+
+
+def _construction_plan(ctx: Ctx, ang, n_each):
+    """A history of AngularGrid constructions: (method spelling, style, degree, size, cache)."""
+    plan = []
+    for m in METHODS:
+        npts = getattr(ang, PREFIX[m] + "_NPOINTS")
+        ks, ds = sorted(npts), sorted(npts.values())
+        small_s = [k for k in ks if k <= 1300]
+        small_d = [npts[k] for k in small_s]
+        degs = {0, 1, ds[-1], ds[-1] + 1, small_d[-1]} | {ctx.rng.choice(small_d) + ctx.rng.choice((-1, 0, 1)) for _ in range(n_each)}
+        sizes = {0, 1, ks[-1], ks[-1] + 1} | {ctx.rng.choice(small_s) + ctx.rng.choice((-1, 0, 1)) for _ in range(n_each)}
+        spell = [m, m.upper(), m.capitalize(), m.title()]
+        for d in degs:
+            for _ in range(2):      # every request is built (at least) twice, interleaved with the others
+                v = ctx.rng.choice([d, d, _npint(ctx, d), float(d) if ctx.rng.random() < 0.3 else d])
+                plan.append((ctx.rng.choice(spell), ctx.rng.choice(["deg-kw", "deg-pos"]), v, None, ctx.rng.random() < 0.5))
+        for sz in sizes:
+            for _ in range(2):
+                st = ctx.rng.choice(["size", "size-degnone", "both"])
+                d = ctx.rng.choice([0, ctx.rng.choice(ds), ds[-1] + 5, 2.5, True]) if st == "both" else None
+                plan.append((ctx.rng.choice(spell), st, d, _npint(ctx, sz) if ctx.rng.random() < 0.3 else sz, ctx.rng.random() < 0.5))
+        plan.append((m, "deg-kw", None, None, True))
+        plan.append((m + "x", "deg-kw", 5, None, True))
+    plan += [("lebedev", "default", None, None, True)] * 2
+    ctx.rng.shuffle(plan)
+    return plan
+
+
+def _construct(ang, spelling, style, d, sz, cache):
+    A = ang.AngularGrid
+    with warnings.catch_warnings():
+        warnings.simplefilter("ignore")
+        if style == "default":
+            return A()
+        if style == "deg-kw":
+            return A(degree=d, method=spelling, cache=cache)
+        if style == "deg-pos":
+            return A(d, method=spelling, cache=cache)
+        if style == "size":
+            return A(size=sz, method=spelling, cache=cache)
+        if style == "size-degnone":
+            return A(None, size=sz, cache=cache, method=spelling)
+        return A(degree=d, size=sz, method=spelling, cache=cache)
+
+
+def _corr_constructions(ctx: Ctx, ang):
+    """Class 1/4/6: AngularGrid(...) as one history of calls in this process — cache on and off,
+    degree / size / both, positional / keyword, any spelling of the method, the largest degree and
+    size of every method, every request at least twice — each compared with the generated selection
+    part of __init__: reported degree, size, number of points, the cache entry, and the points of the
+    very file the model names."""
+    plan = _construction_plan(ctx, ang, ctx.n(3, 25))
+    dflt = inspect.signature(ang.AngularGrid.__init__).parameters["degree"].default
+    lines = []
+    for sp, st, d, sz, cache in plan:
+        if st == "default":
+            lines.append("C12.init0")
+        else:
+            lines.append(f"C12.init {sp} {_tok(dflt if st == 'size' else d)} {_tok(sz)}")
+    model = driver_batch(lines)
+    for step, ((sp, st, d, sz, cache), ans) in enumerate(zip(plan, model)):
+        try:
+            g = _construct(ang, sp, st, d, sz, cache)
+            impl = f"ok {int(g.degree)} {int(g.size)}"
+        except Exception as e:  # noqa: BLE001
+            g, impl = None, _tag(e)
+        ctx.count(["init", sp, st, repr(d), repr(sz), cache], nontrivial=True, tag="init:" + st + (":reject" if g is None else ""))
+        wit = {"method": sp, "style": st, "degree": repr(d), "size": repr(sz), "cache": cache, "impl": impl, "model": ans,
+               "degree_token": _tok(d), "size_token": _tok(sz), "history": [[a, b, repr(c), repr(e_), f] for a, b, c, e_, f in plan[max(0, step - 10):step]]}
+        what = f"AngularGrid({st}: degree={d!r}, size={sz!r}, method={sp!r}, cache={cache}) as call #{step} of a history"
+        if g is None or not ans.startswith("ok"):
+            if impl != ans:
+                ctx.fail("corr", f"init:{sp.lower()}:{st}", f"{what}: implementation {impl}, generated model {ans}", witness=wit)
+            continue
+        _, md, ms, mcache, mkey, pkg, fname = ans.split()
+        if impl != f"ok {md} {ms}":
+            ctx.fail("corr", f"init:{sp.lower()}:{st}", f"{what}: implementation {impl}, generated model ok {md} {ms}", witness=wit)
+            continue
+        pts = _file_points(pkg, fname)
+        if pts is None:
+            ctx.fail("corr", f"init:{sp.lower()}:file", f"{what}: the model names the file {pkg}/{fname}, which does not exist", witness=wit)
+            continue
+        if not (g.points.shape == pts.shape == (int(ms), 3) and np.array_equal(g.points, pts) and g.weights.shape == (int(ms),)
+                and g.method == sp.lower()):
+            ctx.fail("corr", f"init:{sp.lower()}:points", f"{what}: reports degree {g.degree}, size {g.size}, but its {len(g.points)} points / {len(g.weights)} weights "
+                     f"are not the {len(pts)} points of {fname}", witness=wit)
+        if cache:
+            ent = getattr(ang, mcache).get(int(mkey))
+            if ent is None or not np.array_equal(ent[0], pts):
+                ctx.fail("corr", f"init:{sp.lower()}:cache", f"{what}: {mcache}[{mkey}] " + ("is missing" if ent is None else f"holds {len(ent[0])} points that are not those of {fname}"), witness=wit)
+
+
+def _corr_atomgrid(ctx: Ctx, ang):
+    """observe_at AtomGrid(...).degrees: per-shell degrees for `degrees=` and for `sizes=`."""
+    from grid.atomgrid import AtomGrid
+    from grid.onedgrid import GaussLaguerre
+
+    jobs = []
+    for m in METHODS:
+        npts = getattr(ang, PREFIX[m] + "_NPOINTS")
+        small = [k for k in sorted(npts) if k <= 400]
+        for kind in ("deg", "size"):
+            for _ in range(ctx.n(2, 12)):
+                L = ctx.rng.randrange(2, 6)
+                src = [npts[k] for k in small] if kind == "deg" else small
+                seq = [max(0, ctx.rng.choice(src) + ctx.rng.choice((-1, 0, 0, 1))) for _ in range(L)]
+                jobs.append((m, kind, seq))
+    lines = []
+    for m, kind, seq in jobs:
+        lines += [f"C12.resolve {m} deg {x}" for x in seq] if kind == "deg" else [f"C12.convert {m} {len(seq)} " + " ".join(map(str, seq))]
+    ans = iter(driver_batch(lines))
+    for m, kind, seq in jobs:
+        if kind == "deg":
+            want = [int(next(ans).split()[1]) for _ in seq]
+        else:
+            want = [int(x) for x in next(ans).split()[2:]]
+        rg = GaussLaguerre(len(seq))
+        with warnings.catch_warnings():
+            warnings.simplefilter("ignore")
+            cont = ctx.rng.choice([list, np.array])
+            g = AtomGrid(rg, degrees=cont(seq), method=m) if kind == "deg" else AtomGrid(rg, sizes=cont(seq), method=m)
+        got = [int(x) for x in g.degrees]
+        ctx.count(["atomgrid", m, kind, seq], nontrivial=True, tag="atomgrid:" + kind)
+        if got != want:
+            ctx.fail("corr", f"atomgrid:{m}:{kind}", f"AtomGrid(rgrid, {'degrees' if kind == 'deg' else 'sizes'}={seq}, method={m}).degrees = {got}, generated model {want}",
+                     witness={"method": m, "kind": kind, "request": seq, "impl": got, "model": want})
 
 
 def _requests(ctx: Ctx, ang, full: bool):
@@ -151,6 +473,10 @@ def corr(ctx: Ctx):
             ctx.fail("corr", f"convert:{m}", f"convert_angular_sizes_to_degrees({s}, {m}) after earlier calls with other methods: implementation {impl}, model {ans}",
                      witness={"method": m, "sizes": s, "impl": impl, "model": ans,
                               "history": [[mm, ss] for mm, ss in seqs[:seqs.index((m, s))][-12:]]})
+    _corr_classes(ctx, ang)
+    _corr_containers(ctx, ang, pool)
+    _corr_constructions(ctx, ang)
+    _corr_atomgrid(ctx, ang)
     ctx.traces += 1
 
 
@@ -171,6 +497,218 @@ except (ValueError, IndexError) as e:
 want = min(cands, key=lambda p: p[0] if kind == 'deg' else p[1]) if cands else 'ValueError'
 assert got == want, f'{{method}} {{kind}}={{n}}: got {{got}}, smallest supported not below is {{want}}'
 """
+
+
+def _want(ang, m, kind, n):
+    """Brute force over the table: the supported (degree, size) with the least degree (size) not
+    below the request, or None."""
+    npts = getattr(ang, PREFIX[m] + "_NPOINTS")
+    cands = [(int(d), int(sz)) for sz, d in npts.items() if (d if kind == "deg" else sz) >= n]
+    return min(cands, key=lambda p: p[0] if kind == "deg" else p[1]) if cands else None
+
+
+_DIRFILES = {}
+
+
+def _dir_points(m, d, sz):
+    """points of the data file with this degree and size, found by listing the directory."""
+    if (m, d, sz) not in _DIRFILES:
+        fs = [f for f in (SRC / "data" / DIRS[m]).glob("*.npz") if f.name.endswith(f"_{d}_{sz}.npz")]
+        if len(fs) != 1:
+            _DIRFILES[(m, d, sz)] = None
+        else:
+            with np.load(fs[0]) as z:
+                _DIRFILES[(m, d, sz)] = np.array(z["points"])
+    return _DIRFILES[(m, d, sz)]
+
+
+BUILT_SNIPPET = """import warnings; warnings.filterwarnings('ignore')
+import inspect
+import numpy as np
+from grid import angular as ang
+A = ang.AngularGrid
+P = {{'lebedev':'LEBEDEV','spherical':'SPHERICAL','maxdet':'MAX_DET','ahrens_beylkin':'AHRENS_BEYLKIN'}}
+def build(sp, st, d, sz, cache):
+    if st == 'default': return A()
+    if st == 'deg-kw': return A(degree=d, method=sp, cache=cache)
+    if st == 'deg-pos': return A(d, method=sp, cache=cache)
+    if st == 'size': return A(size=sz, method=sp, cache=cache)
+    if st == 'size-degnone': return A(None, size=sz, cache=cache, method=sp)
+    return A(degree=d, size=sz, method=sp, cache=cache)
+hist = {hist!r}      # (method, style, degree, size, cache), the last one is the failing call
+for sp, st, d, sz, cache in hist:
+    m = sp.lower()
+    if st == 'default':
+        par = inspect.signature(A.__init__).parameters
+        m, d, sz = par['method'].default, par['degree'].default, par['size'].default
+    npts = getattr(ang, P[m] + '_NPOINTS')
+    kind, n = ('size', sz) if sz is not None else ('deg', d)
+    cands = [(dd, ss) for ss, dd in npts.items() if (dd if kind == 'deg' else ss) >= n]
+    try:
+        g = build(sp, st, d, sz, cache)
+        got = (int(g.degree), int(g.size), len(g.points), len(g.weights))
+    except Exception as e:
+        got = type(e).__name__
+    if cands:
+        w = min(cands, key=lambda p: p[0] if kind == 'deg' else p[1])
+        want = (w[0], w[1], w[1], w[1])
+    else:
+        want = 'ValueError'
+    assert got == want, f'AngularGrid({{st}}: degree={{d}}, size={{sz}}, method={{sp}}, cache={{cache}}): (degree, size, points, weights) = {{got}}, smallest supported not below gives {{want}}'
+"""
+
+
+def _plain(v):
+    return v if v is None else int(v)
+
+
+def _check_built(ctx: Ctx, ang, step, done):
+    """The property on one construction (after the constructions in `done`): requests made of
+    integers only; float / negative arguments are outside the property's quantifier."""
+    sp, st, d, sz, cache = step
+    m = sp.lower()
+    if m not in METHODS or any(_tok(v) == "other" or (v is not None and int(v) < 0) for v in (d, sz)):
+        return True
+    if st == "default":     # whatever the defaults are, they are a request like any other
+        par = inspect.signature(ang.AngularGrid.__init__).parameters
+        m, d, sz = par["method"].default, par["degree"].default, par["size"].default
+        if m not in METHODS or any(not (v is None or (isinstance(v, int) and v >= 0)) for v in (d, sz)):
+            return True
+    if sz is not None:
+        kind, n = "size", int(sz)      # "If both degree and size are given, size is used"
+    elif d is not None:
+        kind, n = "deg", int(d)
+    else:
+        return True
+    w = _want(ang, m, kind, n)
+    try:
+        g = _construct(ang, sp, st, d, sz, cache)
+        got = (int(g.degree), int(g.size), len(g.points), len(g.weights))
+    except Exception as e:  # noqa: BLE001
+        g, got = None, type(e).__name__
+    want = "ValueError" if w is None else (w[0], w[1], w[1], w[1])
+    ok = got == want
+    why = f"(degree, size, points, weights) = {got}, the smallest supported grid not below the request gives {want}"
+    if ok and g is not None:
+        pts = _dir_points(m, w[0], w[1])
+        if pts is None:
+            ctx.fail("oracle", f"angular:{m}:{w[0]}_{w[1]}:file", f"{m}: no single data file for degree {w[0]} with {w[1]} points",
+                     witness={"method": m, "degree": w[0], "size": w[1]})
+            return True
+        if not np.array_equal(g.points, pts):
+            ok, why = False, f"its points are not those stored for degree {w[0]} / size {w[1]}"
+    if not ok:
+        hist = [(a, b, _plain(c), _plain(e_), f) for a, b, c, e_, f in done[-60:] + [step] if _tok(c) != "other" and _tok(e_) != "other"]
+        ctx.fail("oracle", f"angular:{m}:built", f"AngularGrid({st}: degree={d!r}, size={sz!r}, method={sp!r}, cache={cache}) after {len(done)} earlier constructions: {why}",
+                 witness={"method": sp, "style": st, "degree": repr(d), "size": repr(sz), "cache": cache, "got": got, "want": want, "history": hist},
+                 snippet=BUILT_SNIPPET.format(hist=hist))
+    return ok
+
+
+def _oracle_atomgrid(ctx: Ctx, ang, n):
+    from grid.atomgrid import AtomGrid
+    from grid.onedgrid import GaussLaguerre
+
+    for m in METHODS:
+        npts = getattr(ang, PREFIX[m] + "_NPOINTS")
+        small = [k for k in sorted(npts) if k <= 400]
+        for kind in ("deg", "size"):
+            for _ in range(n):
+                src = [npts[k] for k in small] if kind == "deg" else small
+                seq = [max(0, ctx.rng.choice(src) + ctx.rng.choice((-1, 0, 1))) for _ in range(ctx.rng.randrange(2, 5))]
+                with warnings.catch_warnings():
+                    warnings.simplefilter("ignore")
+                    rg = GaussLaguerre(len(seq))
+                    g = AtomGrid(rg, degrees=list(seq), method=m) if kind == "deg" else AtomGrid(rg, sizes=list(seq), method=m)
+                got = [int(x) for x in g.degrees]
+                want = [_want(ang, m, kind, x)[0] for x in seq]
+                shells = [int(g.indices[i + 1] - g.indices[i]) for i in range(len(seq))]
+                wsz = [_want(ang, m, kind, x)[1] for x in seq]
+                if got != want or shells != wsz:
+                    ctx.fail("oracle", f"angular:{m}:atomgrid", f"AtomGrid(rgrid, {'degrees' if kind == 'deg' else 'sizes'}={seq}, method={m}): shell degrees {got} / shell sizes {shells}, "
+                             f"smallest supported not below the request: degrees {want} / sizes {wsz}",
+                             witness={"method": m, "kind": kind, "request": seq, "got": got, "want": want},
+                             snippet=("import warnings; warnings.filterwarnings('ignore')\nfrom grid import angular as ang\nfrom grid.atomgrid import AtomGrid\nfrom grid.onedgrid import GaussLaguerre\n"
+                                      f"m, kind, seq = {m!r}, {kind!r}, {seq!r}\n"
+                                      "P = {'lebedev':'LEBEDEV','spherical':'SPHERICAL','maxdet':'MAX_DET','ahrens_beylkin':'AHRENS_BEYLKIN'}\n"
+                                      "npts = getattr(ang, P[m] + '_NPOINTS')\n"
+                                      "g = AtomGrid(GaussLaguerre(len(seq)), degrees=seq, method=m) if kind == 'deg' else AtomGrid(GaussLaguerre(len(seq)), sizes=seq, method=m)\n"
+                                      "want = [min((d, s) for s, d in npts.items() if (d if kind == 'deg' else s) >= x) if kind == 'deg' else min((s, d) for s, d in npts.items() if s >= x)[::-1] for x in seq]\n"
+                                      "assert [int(x) for x in g.degrees] == [w[0] for w in want], ([int(x) for x in g.degrees], want)\n"
+                                      "assert [int(g.indices[i+1]-g.indices[i]) for i in range(len(seq))] == [w[1] for w in want], want\n"))
+
+
+def oracle_at(ctx: Ctx, failure):
+    """Evaluate the property itself at an input on which model and implementation disagreed."""
+    ang = importlib.import_module("grid.angular")
+    w = failure.witness or {}
+    if not isinstance(w, dict):
+        return
+    key = failure.key
+    def num(t):  # noqa: E306
+        return None if t == "none" else int(t)
+    if key.startswith("resolve:") and {"method", "kind", "request"} <= set(w):
+        m, k, n = w["method"], w["kind"], int(w["request"])
+        _oracle_request(ctx, ang, m, k, n)
+    elif key.startswith("gds:") and w.get("method") in METHODS and "other" not in (w.get("degree_token"), w.get("size_token")):
+        d, sz = num(w["degree_token"]), num(w["size_token"])
+        if d is not None and d >= 0:        # "if both degree and size are given degree is used" (this method's contract)
+            _oracle_request(ctx, ang, w["method"], "deg", d)
+        elif d is None and sz is not None and sz >= 0:
+            _oracle_request(ctx, ang, w["method"], "size", sz)
+    elif key.startswith("convert:") and w.get("method") in METHODS and "sizes" in w:
+        m, seq = w["method"], [int(x) for x in w["sizes"]]
+        npts = getattr(ang, PREFIX[m] + "_NPOINTS")
+        if seq and all(0 <= x <= max(npts) for x in seq):
+            _oracle_convert(ctx, ang, m, seq)
+    elif key.startswith("init:") and "other" not in (w.get("degree_token"), w.get("size_token")) and "style" in w:
+        step = (w["method"], w["style"], num(w["degree_token"]), num(w["size_token"]), bool(w["cache"]))
+        _check_built(ctx, ang, step, [])
+    elif key.startswith("atomgrid:"):
+        _oracle_atomgrid(ctx, ang, 6)
+
+
+def _oracle_request(ctx: Ctx, ang, m, k, n):
+    got = _impl(ang, m, degree=n) if k == "deg" else _impl(ang, m, size=n)
+    w = _want(ang, m, k, n)
+    want = "value-error" if w is None else f"ok {w[0]} {w[1]}"
+    if got != want:
+        ctx.fail("oracle", f"angular:{m}:{k}", f"{m} {k}={n}: got {got}, smallest supported not below is {want}",
+                 witness={"method": m, "kind": k, "request": n, "got": got, "want": want},
+                 snippet=SNIPPET.format(method=m, kind=k, n=n))
+
+
+def _oracle_convert(ctx: Ctx, ang, m, seq, container=np.array):
+    """The converter on one in-range sequence, after everything this process has converted so far."""
+    npts = getattr(ang, PREFIX[m] + "_NPOINTS")
+    ks = sorted(npts)
+    _HISTORY.append([m, list(seq)])
+    with warnings.catch_warnings():
+        warnings.simplefilter("ignore")
+        try:
+            got = [int(x) for x in ang.AngularGrid.convert_angular_sizes_to_degrees(container(seq), m)]
+        except Exception as e:  # noqa: BLE001
+            got = _tag(e)
+    want = [npts[min(k for k in ks if k >= x)] for x in seq]
+    if got != want:
+        h = [(a, b) for a, b in _HISTORY[-400:]]
+        ctx.fail("oracle", f"angular:{m}:convert", f"convert_angular_sizes_to_degrees({getattr(container, '__name__', 'array')}({seq}), {m}) = {got} after {len(h) - 1} earlier converter calls in this process (other methods, same sizes), element-wise rule gives {want}",
+                 witness={"method": m, "sizes": seq, "history": [[a, b] for a, b in h]},
+                 snippet=CONVERT_SNIPPET.format(hist=[[a, b] for a, b in h]))
+        return False
+    return True
+
+
+CONVERT_SNIPPET = ("import warnings; warnings.filterwarnings('ignore')\nimport numpy as np\nfrom grid import angular as ang\n"
+                   "hist = {hist!r}\n"
+                   "P = {{'lebedev':'LEBEDEV','spherical':'SPHERICAL','maxdet':'MAX_DET','ahrens_beylkin':'AHRENS_BEYLKIN'}}\n"
+                   "for m, s in hist:\n"
+                   "    npts = getattr(ang, P[m] + '_NPOINTS'); ks = sorted(npts)\n"
+                   "    if any(x > ks[-1] or x < 0 for x in s): continue\n"
+                   "    for c in (np.array, list, tuple):\n"
+                   "        d = [int(x) for x in ang.AngularGrid.convert_angular_sizes_to_degrees(c(s), m)]\n"
+                   "        want = [npts[min(k for k in ks if k >= x)] for x in s]\n"
+                   "        assert d == want, f'{{m}} {{c.__name__}} {{s}}: {{d}} != {{want}}'\n")
 
 
 def oracle(ctx: Ctx, budget: str):
@@ -213,15 +751,29 @@ def oracle(ctx: Ctx, budget: str):
                 ctx.fail("oracle", f"angular:{m}:{k}", f"{m} {k}={n}: got {got}, smallest supported not below is {want}",
                          witness={"method": m, "kind": k, "request": n, "got": got, "want": want},
                          snippet=SNIPPET.format(method=m, kind=k, n=n))
-    # built grids report a matching pair (sample; loads files)
+    # integer-like argument kinds take the same rule (bool, NumPy integers of every width)
     for m in METHODS:
         npts = getattr(ang, PREFIX[m] + "_NPOINTS")
-        maxd = max(npts.values())
-        for _ in range(3 if budget == "small" else 25):
-            n = ctx.rng.randrange(0, min(maxd, 60) + 1)
-            g = ang.AngularGrid(degree=n, method=m, cache=False)
-            if npts.get(g.size) != g.degree or g.degree < n or g.points.shape != (g.size, 3):
-                ctx.fail("oracle", f"angular:{m}:built", f"AngularGrid(degree={n}, method={m}) reports degree {g.degree}, size {g.size}")
+        ks = sorted(npts)
+        for v in [True, False, _npint(ctx, ctx.rng.choice(ks) - 1), _npint(ctx, ctx.rng.randrange(0, ks[-1] + 1)), np.uint8(ctx.rng.randrange(0, 120))]:
+            for k in ("deg", "size"):
+                got = _impl(ang, m, degree=v) if k == "deg" else _impl(ang, m, size=v)
+                w = _want(ang, m, k, int(v))
+                want = "value-error" if w is None else f"ok {w[0]} {w[1]}"
+                if got != want:
+                    ctx.fail("oracle", f"angular:{m}:{k}", f"{m} {k}={v!r}: got {got}, smallest supported not below is {want}",
+                             witness={"method": m, "kind": k, "request": repr(v), "got": got, "want": want},
+                             snippet=SNIPPET.format(method=m, kind=k, n=int(v)))
+    # built grids: one history of constructions (cache on and off, degree / size / both, any spelling,
+    # largest degree and size of every method, every request at least twice, interleaved)
+    plan = _construction_plan(ctx, ang, 2 if budget == "small" else 14)
+    done = []
+    for step in plan:
+        if not _check_built(ctx, ang, step, done):
+            break
+        done.append(step)
+    # AtomGrid(...).degrees: no shell coarser than asked for
+    _oracle_atomgrid(ctx, ang, 1 if budget == "small" else 8)
     # converter element-wise, as a history of calls with a shared pool of sizes across methods
     pool = set()
     for m in METHODS:
@@ -229,7 +781,6 @@ def oracle(ctx: Ctx, budget: str):
         for k in ks[:14]:
             pool.update((k - 1, k, k + 1))
     pool = sorted(x for x in pool if x >= 0)
-    hist = []
     for _ in range(60 if budget == "small" else 1500):
         m = ctx.rng.choice(METHODS)
         npts = getattr(ang, PREFIX[m] + "_NPOINTS")
@@ -239,22 +790,6 @@ def oracle(ctx: Ctx, budget: str):
         s = [x for x in s if x <= ks[-1]]
         if not s:
             continue
-        hist.append((m, s))
-        _HISTORY.append([m, list(s)])
-        d = ang.AngularGrid.convert_angular_sizes_to_degrees(np.array(s), m)
-        want = [npts[min(k for k in ks if k >= x)] for x in s]
-        if [int(x) for x in d] != want:
-            h = [(a, b) for a, b in _HISTORY[-400:]]
-            ctx.fail("oracle", f"angular:{m}:convert", f"convert_angular_sizes_to_degrees({s}, {m}) = {[int(x) for x in d]} after {len(h) - 1} earlier converter calls in this process (other methods, same sizes), element-wise rule gives {want}",
-                     witness={"method": m, "sizes": s, "history": [[a, b] for a, b in h]},
-                     snippet=(
-                         "import warnings; warnings.filterwarnings('ignore')\nimport numpy as np\nfrom grid import angular as ang\n"
-                         f"hist = {[[a, b] for a, b in h]!r}\n"
-                         "P = {'lebedev':'LEBEDEV','spherical':'SPHERICAL','maxdet':'MAX_DET','ahrens_beylkin':'AHRENS_BEYLKIN'}\n"
-                         "for m, s in hist:\n"
-                         "    npts = getattr(ang, P[m] + '_NPOINTS'); ks = sorted(npts)\n"
-                         "    if any(x > ks[-1] for x in s): continue\n"
-                         "    d = [int(x) for x in ang.AngularGrid.convert_angular_sizes_to_degrees(np.array(s, dtype=int), m)]\n"
-                         "    want = [npts[min(k for k in ks if k >= x)] for x in s]\n"
-                         "    assert d == want, f'{m} {s}: {d} != {want}'\n"))
+        cont = ctx.rng.choice([np.array, np.array, list, tuple, lambda q: np.array(q, dtype=np.int32), lambda q: np.repeat(np.array(q), 2)[::2]])
+        if not _oracle_convert(ctx, ang, m, s, cont):
             break
